@@ -30,10 +30,17 @@ SProd(a, b) == IF b = <<>> THEN a
 SContains(b, a) == \A i \in DOMAIN a : SHas(b, a[i][1]) /\ SDimOf(b, a[i][1]) >= a[i][2]
 \* selection of variables by a list of names (requested order)
 SSelect(sp, names) == [i \in DOMAIN names |-> <<names[i], SDimOf(sp, names[i])>>]
-\* name slice  sp[a:b]  ("" = open end)
-SSlice(sp, a, b) == LET lo == IF a = "" THEN 1 ELSE SIdx(sp, a)
-                        hi == IF b = "" THEN Len(sp) ELSE SIdx(sp, b) - 1
-                    IN IF hi < lo THEN <<>> ELSE SubSeq(sp, lo, hi)
+\* python slice(lo, hi, s) over n items, lo / hi a 0-based position or None (open end), s any non-zero step: the 0-based positions
+PyIdx(lo, hi, s, n) ==
+    IF s > 0 THEN LET a == IF lo = None THEN 0 ELSE lo   b == IF hi = None THEN n ELSE hi
+                      cnt == IF b <= a THEN 0 ELSE (b - a + s - 1) \div s
+                  IN [r \in 1..cnt |-> a + (r - 1) * s]
+    ELSE LET a == IF lo = None THEN n - 1 ELSE lo   b == IF hi = None THEN -1 ELSE hi   st == -s
+             cnt == IF a <= b THEN 0 ELSE (a - b + st - 1) \div st
+         IN [r \in 1..cnt |-> a - (r - 1) * st]
+\* name slice  sp[a:b:s]  ("" = open end; the step may be negative: variables in reverse order)
+SSlice(sp, a, b, s) == LET ix == PyIdx(IF a = "" THEN None ELSE SIdx(sp, a) - 1, IF b = "" THEN None ELSE SIdx(sp, b) - 1, s, Len(sp))
+                       IN [r \in DOMAIN ix |-> sp[ix[r] + 1]]
 \* column indices (1-based) of a variable group
 SOffset(sp, n) == SumSeq([i \in 1..(SIdx(sp, n) - 1) |-> sp[i][2]])
 SCols(sp, n) == [j \in 1..SDimOf(sp, n) |-> SOffset(sp, n) + j]
@@ -82,7 +89,7 @@ SelsValid(sh, sels) == IF sels = <<>> THEN TRUE
 ColSpace(sp, cs) == CASE cs.k = "none" -> sp
                       [] cs.k = "name" -> <<<<cs.n, SDimOf(sp, cs.n)>>>>
                       [] cs.k = "list" -> SSelect(sp, cs.ns)
-                      [] cs.k = "nslice" -> SSlice(sp, cs.a, cs.b)
+                      [] cs.k = "nslice" -> SSlice(sp, cs.a, cs.b, IF "s" \in DOMAIN cs THEN cs.s ELSE 1)
 ColValid(sp, cs) == CASE cs.k = "name" -> SHas(sp, cs.n)
                       [] cs.k = "list" -> (\A i \in DOMAIN cs.ns : SHas(sp, cs.ns[i])) /\ (\A i, j \in DOMAIN cs.ns : i # j => cs.ns[i] # cs.ns[j])
                       [] cs.k = "nslice" -> (cs.a = "" \/ SHas(sp, cs.a)) /\ (cs.b = "" \/ SHas(sp, cs.b))
